@@ -43,6 +43,12 @@ LegalToken(c, t) ==
     [] t.rep = "sync"    -> TRUE
     [] OTHER -> FALSE
 
+\* What the server advertised holds for the connection state it was advertised in: LOGIN, AUTHENTICATE, STARTTLS and
+\* UNAUTHENTICATE invalidate it (RFC 9051 6.1.1), and until the server has announced its capabilities again nothing is
+\* advertised - only what every server accepts may be written.
+NothingAdvertised == [litminus |-> FALSE, litplus |-> FALSE, rev2 |-> FALSE, utf8adv |-> FALSE, utf8 |-> FALSE]
+Effective(c, stale) == IF stale THEN NothingAdvertised ELSE c
+
 \* ---- the handshake -------------------------------------------------------------
 Init == /\ cfg \in Configs /\ phase = "idle" /\ wrote = 0 /\ status = "none" /\ alive = TRUE
 
